@@ -137,7 +137,15 @@ func (db *DB) Start(initCheckpoints []recovery.CheckpointHandle) error {
 
 	latestCP := db.checkpoints.Latest()
 	db.sstables = latestCP.Levels
-	db.seqNum = latestCP.Levels.LatestSeqNum
+
+	// Resume numbering after the last sequence number the checkpointed database
+	// had used. The level list only knows the sequence number of the last key of
+	// each table, which can be smaller than that of other entries in the tables;
+	// starting from it would give replayed and new writes sequence numbers that
+	// tables already use for older versions. Replayed WAL entries are renumbered
+	// above LastSeqNum, so everything up to it is covered by the tables.
+	db.seqNum = max(latestCP.Levels.LatestSeqNum, latestCP.LastSeqNum)
+	db.sstables.LatestSeqNum = db.seqNum
 
 	// Continue numbering table files after the ones the checkpoint references, so
 	// that tables written from now on never overwrite them.
